@@ -134,6 +134,12 @@ def jobs_for(prop: str, root: str) -> list[dict]:
     if prop in table.MUTANTS or prop in table.SEEDS:
         out.append({"prop": prop, "root": root, "kind": "unparse", "expect": None,
                     "name": "benign: every source file re-printed by ast.unparse (layout, comments, parentheses, string quoting gone)"})
+    bd = os.path.join(VERIF_DIR, "benign")
+    if os.path.isdir(bd):
+        for name in sorted(os.listdir(bd)):
+            p = os.path.join(bd, name, "patch.diff")
+            if name.startswith(prop + "-b") and os.path.exists(p):
+                out.append({"prop": prop, "root": root, "kind": "patch", "name": f"benign/{name} (refactoring written by a fresh sub-agent)", "patch": p, "expect": None})
     sd = os.path.join(VERIF_DIR, "seeded")
     for sid, rule in sorted(table.SEEDS.get(prop, {}).items()):
         p = os.path.join(sd, sid, "patch.diff")
